@@ -81,7 +81,8 @@ DATAONLY = {"dataonly-messages", "dataonly-mcp"}
 
 
 def burst_msg(i):
-    return {"k": "msg", "m": {"jsonrpc": "2.0", "method": "notifications/progress", "params": {"seq": i}}, "typed": bool(i % 3)}
+    return {"k": "msg", "m": {"jsonrpc": "2.0", "method": "notifications/progress", "params": {"seq": i}}, "typed": bool(i % 3),
+            "nospace": i % 5 == 0, "multiline": i % 7 == 0}
 
 
 def items_of(case):
@@ -95,19 +96,36 @@ def items_of(case):
     return out
 
 
+def msg_lines(it):
+    """the data line(s) of a message item: compact JSON on one line, or ("multiline") the same
+    value pretty-printed over several `data` lines"""
+    if it.get("multiline"):
+        return json.dumps(it["m"], indent="\t", ensure_ascii=False).split("\n")
+    return [json.dumps(it["m"], separators=(",", ":"), ensure_ascii=False)]
+
+
+def msg_data(it):
+    """what the transport must hand to the JSON decoder for this item"""
+    return "\n".join(msg_lines(it)).strip()
+
+
 def render_item(it) -> str:
     nl = "\r\n" if it.get("crlf") else "\n"
+    sp = "" if it.get("nospace") else " "   # the space after the colon is optional
     k = it["k"]
     if k == "endpoint":
         data = ENDPOINT_FORMS[it["form"]][0]
         if it.get("pad"):
             data = "  " + data + " \t"
-        head = "" if it["form"] in DATAONLY else "event: endpoint" + nl
-        return head + "data: " + data + nl + nl
+        head = "" if it["form"] in DATAONLY else "event:" + sp + "endpoint" + nl
+        return head + "data:" + sp + data + nl + nl
     if k == "msg":
-        data = json.dumps(it["m"], separators=(",", ":"), ensure_ascii=False)
-        head = "event: message" + nl if it.get("typed", True) else ""
-        return head + "data: " + data + nl + nl
+        head = "event:" + sp + "message" + nl if it.get("typed", True) else ""
+        inner = "".join(x + nl for x in it.get("inner", []))   # comment lines / other fields inside the event
+        body = "".join("data:" + sp + line + nl for line in msg_lines(it))
+        if it.get("event_last"):  # the order of the fields of one event is free
+            return inner + body + head + nl
+        return head + inner + body + nl
     if k == "raw":
         return it["text"]
     raise ValueError(k)
@@ -170,7 +188,7 @@ def harness_case(case):
         ev = None
         if r["mode"] in ("evack", "ackev"):
             ev = {"d": r["ed"], "cuts": r.get("cuts", []), "gap": r.get("gap", 0), "typed": r.get("typed", True),
-                  "after_post_at_tie": bool(r.get("tiePostFirst"))}
+                  "after_post_at_tie": bool(r.get("tiePostFirst")), "nospace": bool(r.get("nospace")), "multiline": bool(r.get("multiline"))}
         h.update(post=post, ev=ev)
         reqs.append(h)
     out = {
@@ -208,7 +226,7 @@ def model_line(case):
     table = []
     for it in items_of(case):
         if it["k"] == "msg":
-            data = json.dumps(it["m"], separators=(",", ":"), ensure_ascii=False)
+            data = msg_data(it)
             table.append({"d": [ord(c) for c in data], "key": py_key(it["m"].get("id")) if isinstance(it["m"], dict) else None,
                           "ok": bool(it.get("valid", True))})
     reqs = []
@@ -247,7 +265,9 @@ def announce_tick(case):
     for it in items_of(case):
         b = render_item(it).encode("utf-8")
         if it["k"] == "endpoint" and it["form"] not in NOT_ANNOUNCING:
-            # the announcement is complete with the line feed that ends its data line
+            # the earliest moment a transport may take the endpoint as announced: the line feed
+            # that ends its data line (a transport that waits for the blank line ending the
+            # event yields later, which is just as good)
             nl = 2 if it.get("crlf") else 1
             end = pos + len(b) - nl
             break
@@ -317,8 +337,8 @@ def exit_after(case):
     at = 20
     for r in real_reqs(case):
         at = max(at, r["at"]) + r.get("d", 4) + r.get("ed", 0) + len(r.get("cuts", [])) * r.get("gap", 0) + 10
-        if r["mode"] == "silence":
-            at += T
+        if r["mode"] in ("silence", "evack", "ackev"):
+            at += T  # also for an answer on the event stream: were it lost, the synthesised timeout error is the terminal
     plan, close = chunk_plan(case)
     if plan:
         at = max(at, plan[-1][0] + 10)
@@ -831,3 +851,62 @@ def features(case):
     f.add("tie:" + case.get("tie", "events"))
     f.add("exit:" + case.get("exit", {}).get("k", "normal"))
     return f
+
+
+def styled(it, k):
+    """the same item in the k-th conformant rendering style"""
+    it = dict(it)
+    if it["k"] not in ("msg", "endpoint"):
+        return it
+    it["nospace"] = bool(k & 1)
+    it["crlf"] = bool(k & 2)
+    if it["k"] == "msg":
+        it["multiline"] = bool(k & 4)
+        if k & 8:
+            it["inner"] = [[": keep-alive"], ["id: 5", "retry: 10"], [":"], ["id", ": x"]][(k >> 4) % 4]
+        if (k & 16) and it.get("typed", True):
+            it["event_last"] = True
+    return it
+
+
+def grammar_cases(budget, rng):
+    """every conformant rendering of the same events: optional space after the colon, LF / CRLF,
+    data spread over several lines, comments and other fields inside an event, fields in any
+    order — for the announcement, for server messages and for the answer of a request"""
+    out = []
+    T = 256
+    k = 0
+    # the announcement
+    for form in ENDPOINT_FORMS:
+        if form in NOT_ANNOUNCING:
+            continue
+        for crlf in (False, True):
+            for pad in (False, True):
+                k += 1
+                c = {"base": base_for(form), "T": T, "tie": TIES[k % 3], "conn": {"k": "ok", "at": 0},
+                     "items": [{"k": "endpoint", "form": form, "pad": pad, "crlf": crlf, "nospace": True}, styled(msg_notif(k), k)],
+                     "cuts": [], "t0": 1 + k % 4, "gap": 0, "reqs": [probe_req()]}
+                out.append(finish(c))
+    # server messages in every style, cut anywhere
+    base_items = [msg_notif(1), msg_srvreq(1), msg_unicode(2), msg_foreign_resp(3), msg_magic(4, True), msg_magic(5, False), msg_odd(6), msg_invalid(7)]
+    n = 64 if budget == "quick" else 32 * 8
+    for st in range(n):
+        k += 1
+        items = [styled(EP, st)] + [styled(it, st + 3 * j) for j, it in enumerate(base_items)]
+        nbytes = len("".join(render_item(it) for it in items).encode("utf-8"))
+        cuts = sorted(rng.sample(range(1, nbytes), rng.randint(0, 5)))
+        out.append(finish({"T": T, "tie": TIES[k % 3], "items": items, "cuts": cuts, "t0": 1, "gap": k % 3, "reqs": [probe_req()]}))
+    # the answer of a request on the event stream
+    for mode, d, ed in (("evack", 9, 3), ("ackev", 3, 9)):
+        for nospace in (False, True):
+            for multiline in (False, True):
+                for typed in (True, False):
+                    for cuts, gap in (([], 0), ([9, 30], 1)):
+                        for rid in ("r1", 7):
+                            k += 1
+                            if budget == "quick" and (k % 2) and cuts:
+                                continue
+                            r = mk_req(1, 3, {"mode": mode, "d": d + 2 * len(cuts), "ed": ed if mode == "evack" else ed + 2 * len(cuts)}, id=rid, nospace=nospace,
+                                       multiline=multiline, typed=typed, cuts=cuts, gap=gap)
+                            out.append(finish({"T": T, "tie": TIES[k % 3], "items": [EP, styled(msg_notif(k), k)], "t0": 1, "gap": 0, "reqs": [r, mk_req(2, 5, {"mode": "200"})]}))
+    return out
